@@ -4,7 +4,7 @@ import json
 
 import gen
 import vlib
-from vlib import Recorder, Report, b2l, call
+from vlib import exc_info, Recorder, Report, b2l, call
 
 
 def alt_witnesses(r, d):
@@ -44,6 +44,8 @@ def drive(tier):
                 k, o = call(gen.build_tx, dd, mut is True, mut == "alt")     # third form: other container types for the same value
                 mut = mut is True
                 if k == "exc":
+                    # a transaction of in-range field values must be constructible: reported as an object without identifiers
+                    R.add("ids.obj", {"kind": "tx", "obj": gen.tx_json(dd), "mutable": mut}, dict(exc_info(o), txid=[-1], wtxid=[-1], cached=[]))
                     continue
                 fam.append(gen.tx_json(dd))
                 objs.append(o)
